@@ -64,7 +64,7 @@ package fstxn
 //@   requires [L2-clean] forall i uint64 :: held[i] ==> !dirtyinum[i] @C03 @C09 @C10
 //@   requires [L2-held-through-commit] cphase != 1 || (forall i uint64 :: !wroteinum[i]) @C03 @C14
 //@   modifies held, map[uint64]*inode.Inode
-//@   ensures noLocks() && opShape(op)
+//@   ensures noLocks() && opInv(op)
 //@   loop 0 invariant opInv(op) && (forall i uint64 :: held[i] ==> !dirtyinum[i]) && (forall i uint64 :: held[i] ==> rangestart[i] && !rangevisited[i]) && (forall i uint64 :: held[i] ==> old(held)[i])
 
 //@ spec (*FsTxn).invalidateInodes(op)
